@@ -98,10 +98,10 @@ def direct_session(R, hist, mini, multi, shape, repkind):
         tracker.evaluate(batch)
         if multi:
             fr = tracker.get_best_individuals()
-            bagg = iv(fr[0].get_fitness(problem).maximizing_aggregate) if fr else -(10 ** 10)
+            bagg = iv(fr[0].get_fitness(problem).maximizing_aggregate) if fr else -(2 * 10 ** 9)
         else:
             bi = tracker.get_best_individual()
-            bagg = iv(bi.get_fitness(problem).maximizing_aggregate) if bi is not None else -(10 ** 10)
+            bagg = iv(bi.get_fitness(problem).maximizing_aggregate) if bi is not None else -(2 * 10 ** 9)
         events.append({"e": "endpresent", "ids": [ids.of(x) for x in batch], "bestagg": bagg})
         presented += [x for x in batch if x not in presented]
     return events, base_cfg(mini, multi, "direct")
